@@ -55,18 +55,22 @@ fn real_main() -> i32 {
                 eprintln!("replay file is not JSON");
                 return 2;
             };
-            match (doc["property"].as_str(), doc["engine"].as_str()) {
-                (Some("C14"), Some("processes")) => c14::replay(&doc),
-                (Some("C15"), _) => c15::replay(&doc),
-                (Some("C20"), Some("threads")) => c20::replay(&doc),
+            let code = match (doc["property"].as_str(), doc["engine"].as_str()) {
                 (Some("C10"), _) => c10::replay(&doc),
                 (Some("C11"), _) => c11::replay(&doc),
                 (Some("C12"), Some("disk")) => c12::replay(&doc),
+                (Some("C14"), Some("processes")) => c14::replay(&doc),
+                (Some("C15"), _) => c15::replay(&doc),
+                (Some("C20"), Some("threads")) => c20::replay(&doc),
                 _ => {
                     eprintln!("unknown property/engine in replay file");
                     2
                 }
+            };
+            if code == 1 {
+                println!("VIOLATION property={} replay={}", doc["property"].as_str().unwrap_or("?"), path);
             }
+            code
         }
         "gen-sample" => {
             let mut rng = rng::Rng::new(rng::run_seed(env.seed, "sample", 0));
